@@ -17,6 +17,17 @@ random_values(col, n, rng, null_p) -> list
 Bits(n): exact IEEE bit pattern for FLOAT / DOUBLE / FLOAT16.   OMIT: lie value that drops a field.
 UNSUPPORTED / unsupported_reason(col): what the engine (as observed) rejects.
 
+write_file returns {'num_rows', 'row_groups': [{'num_rows', 'total_byte_size', 'columns': [{'name',
+'file_offset', 'data_page_offset', 'dictionary_page_offset', 'num_values', 'total_compressed_size',
+'total_uncompressed_size', 'encodings', 'codec', 'null_count', 'min', 'max' (raw stat bytes as written),
+'pages': [{'kind': 'dict'|'data', 'header_off', 'header_len', 'body_off', 'body_len', 'num_values',
+'encoding', 'num_nulls' (data pages)}]}]}], 'footer_off', 'footer_len', 'schema', 'file_size'}; all
+offsets/sizes are the TRUE ones even when `lies` falsify what the metadata says.
+Empty row groups get no pages unless empty_rg_page=True (then one 0-value data page per chunk).
+With encoding='DICT', pages are dictionary-encoded until adding a page's new values would exceed
+dict_max; that page and all later ones fall back to PLAIN.  Note the engine's default `partitions`
+is > 1, so row groups come back interleaved unless `SET partitions TO 1`.
+
 Python values per column: None (NULL), bool, int (logical value: e.g. 0..2**32-1 for UINT32,
 unscaled integer for DECIMAL on any physical type), float or Bits, bytes (str allowed for
 STRING/ENUM/JSON), INT96 as (nanos_of_day, julian_day).
@@ -611,9 +622,12 @@ def _minmax(col, vals, legacy=False):
 
 def _widen(col, lo, hi):
     """Valid but inexact bounds: lo' <= lo, hi' >= hi."""
-    if col.phys in ('INT32', 'INT64') and _sort_order(col) == 'signed':
+    if col.phys in ('INT32', 'INT64'):     # stay inside the logical type's value range (spec requirement)
         b = _int_bits(col)
-        return max(lo - 1, -(1 << (b - 1))), min(hi + 1, (1 << (b - 1)) - 1)
+        m = (1 << b) - 1 if _sort_order(col) == 'unsigned' else 0
+        rlo, rhi = _logical_int_range(col)
+        nlo, nhi = max((lo & m if m else lo) - 1, rlo), min((hi & m if m else hi) + 1, rhi)
+        return _phys(col, nlo), _phys(col, nhi)
     if col.phys == 'BYTE_ARRAY' and col.logical != 'DECIMAL':
         nhi = hi
         if len(hi) > 1 and hi[0] < 0x7f:    # one-byte upper bound (also valid UTF-8)
@@ -689,7 +703,7 @@ def _write_chunk(buf, col, vals, page_version, codec, lies, used, prefix, crc, e
         buf.extend(body)
         tot_unc += len(h) + unc_len
         info['pages'].append(dict(kind=kind, header_off=off, header_len=len(h), body_off=off + len(h),
-                                  body_len=len(body), num_values=nvals, **extra))
+                                  body_len=len(body), num_values=nvals, **extra))  # extra: encoding, num_nulls
 
     dict_off = None
     if n_dict_pages:
@@ -740,7 +754,8 @@ def _write_chunk(buf, col, vals, page_version, codec, lies, used, prefix, crc, e
             hdr = S((1, 'i32', 'type', 3), (2, 'i32', 'uncompressed_page_size', unc),
                     (3, 'i32', 'compressed_page_size', len(body)),
                     (4, 'i32', 'crc', _crc(body) if crc else None), (8, 'struct', 'data_page_header_v2', ph))
-        emit('data', hdr, body, unc, len(pg), '%spage%d.' % (prefix, k), {'encoding': fenc})
+        emit('data', hdr, body, unc, len(pg), '%spage%d.' % (prefix, k),
+             {'encoding': fenc, 'num_nulls': len(pg) - len(nn)})
     nn_all = [v for v in pv if v is not None]
     st, rmin, rmax = _statistics(col, nn_all, len(pv) - len(nn_all))
     info.update(file_offset=start, data_page_offset=data_off, dictionary_page_offset=dict_off,
@@ -997,8 +1012,49 @@ def random_values(col, n, rng, null_p=0.0):
 
 
 # ---------------------------------------------------------------- observed engine limits
-KNOWN_MAPPING_NOTES = []
-UNSUPPORTED = {'types': {}, 'encodings': {}, 'other': {}}
+KNOWN_MAPPING_NOTES = [
+    'INT32 + converted_type TIME_MILLIS (no LogicalType) is announced by the engine as Timestamp(ms) '
+    '(convert.rs); a time of day is not a timestamp, and the scan then fails with "Not yet implemented: '
+    'timestamp reader for physical type: (Millisecond, INT32)". engine_type() returns None for TIME_*.',
+    'INT64 + LogicalType DATE would map to Date64 in convert.rs; DATE may only annotate INT32 and the '
+    'schema builder rejects it first, so the arm is dead.',
+    'Timestamp isAdjustedToUTC is ignored (both map to Timestamp(unit)); accepted, engine has one timestamp type.',
+    'INT96 maps to Timestamp(ns) = (julian_day - 2440588) * 86400e9 + nanos_of_day (Impala/Spark convention).',
+    'LogicalType DECIMAL without the legacy SchemaElement.scale/precision fields is rejected although '
+    'parquet.thrift says those fields are superseded by DecimalType.',
+]
+
+# Observed with the self-test on the unchanged /repo tree.  Keys of 'types': (phys, logical, annot|'*');
+# keys of 'encodings': (phys, logical|'*', writer-encoding).  Values: engine error text (prefix).
+_NOTYPE = 'Cannot handle %s with logical type ... or converted type ...'
+UNSUPPORTED = {
+    'types': {
+        ('INT32', 'TIME_MILLIS', '*'): 'no time-of-day type; Cannot handle INT32 with logical type Some(Time..) / '
+                                       'converted-only: Not yet implemented: timestamp reader for (Millisecond, INT32)',
+        ('INT64', 'TIME_MICROS', '*'): _NOTYPE % 'INT64',
+        ('INT64', 'TIME_NANOS', '*'): _NOTYPE % 'INT64',
+        ('INT64', 'TIMESTAMP_MILLIS', 'converted'): 'Cannot handle INT64 with logical type None or converted type TIMESTAMP_MILLIS',
+        ('INT64', 'TIMESTAMP_MICROS', 'converted'): 'Cannot handle INT64 with logical type None or converted type TIMESTAMP_MICROS',
+        ('INT32', 'DECIMAL', 'logical'): 'DECIMAL logical type scale N must match self.scale -1',
+        ('INT64', 'DECIMAL', 'logical'): 'DECIMAL logical type scale N must match self.scale -1',
+        ('BYTE_ARRAY', 'DECIMAL', '*'): _NOTYPE % 'BYTE_ARRAY',
+        ('BYTE_ARRAY', 'ENUM', '*'): _NOTYPE % 'BYTE_ARRAY',
+        ('BYTE_ARRAY', 'JSON', '*'): _NOTYPE % 'BYTE_ARRAY',
+        ('BYTE_ARRAY', 'BSON', '*'): _NOTYPE % 'BYTE_ARRAY',
+        ('FIXED_LEN_BYTE_ARRAY', None, '*'): _NOTYPE % 'FIXED_LEN_BYTE_ARRAY',
+        ('FIXED_LEN_BYTE_ARRAY', 'UUID', '*'): _NOTYPE % 'FIXED_LEN_BYTE_ARRAY',
+        ('FIXED_LEN_BYTE_ARRAY', 'INTERVAL', '*'): _NOTYPE % 'FIXED_LEN_BYTE_ARRAY',
+        ('FIXED_LEN_BYTE_ARRAY', 'DECIMAL', '*'): _NOTYPE % 'FIXED_LEN_BYTE_ARRAY',
+    },
+    'encodings': {
+        ('FIXED_LEN_BYTE_ARRAY', '*', 'DELTA_BYTE_ARRAY'): 'failed to downcast array buffer (mut) (decoder only writes Binary/Utf8)',
+        ('FIXED_LEN_BYTE_ARRAY', '*', 'BYTE_STREAM_SPLIT'): 'BYTE_STREAM_SPLIT only valid for INT32, INT64, FLOAT, DOUBLE',
+    },
+    'other': {
+        'codec': 'BROTLI, LZ4 (hadoop framing) and LZO are not produced by this writer; LZO is rejected by the engine',
+        'nested': 'MAP / LIST / nested groups: not implemented in convert.rs; writer is flat-only',
+    },
+}
 
 
 def unsupported_reason(col):
